@@ -155,6 +155,10 @@ class Categorize(Factory, Container):
         """Copy of another Categorize's bin; built on this container's template (if any) so that it stays fillable."""
         if self.value is not None:
             return self.value.zero() + sub
+        for reference in self.bins.values():
+            # no template (made by ed() or fromJson): an existing bin stands in for it, so that a bin of another
+            # structure is refused here as it is by a container that has its template
+            return reference.zero() + sub
         return sub.copy()
 
     @inheritdoc(Container)
